@@ -124,13 +124,20 @@ def docNumbers (b : Batch) (ids : List Bytes) : List Nat :=
 
 /-! ### Doc values (C03) -/
 
-/-- Terms document `d` has in field `n` (ascending, each once) if the field is
-    indexed with doc values in this batch. -/
+/-- The encoded shape document `d` carries for field `n`: that of its last
+    ordinary (non-composite) instance of `n` that is a geo-shape field. -/
+def shapeOf (d : DocIn) (n : Name) : Option Bytes :=
+  ((d.fields.filter (fun f => f.kind == .fld && f.name = n)).filterMap (·.shape)).getLast?
+
+/-- Doc values of document `doc` in field `n`, if the field is indexed with doc
+    values in this batch: the terms the document has in the field (ascending,
+    each once), then - for a geo-shape field - the encoded shape as one more
+    value (also when the document has no terms in the field). -/
 def docValues (vectors : Bool) (b : Batch) (n : Name) (doc : Nat) : List Bytes :=
   if includeDocValues b n then
     match b[doc]? with
     | none => []
-    | some d => sortDedup ((insts vectors d n).flatMap (fun f => f.toks.map (·.term)))
+    | some d => sortDedup ((insts vectors d n).flatMap (fun f => f.toks.map (·.term))) ++ (shapeOf d n).toList
   else []
 
 /-! ### Merge (C05 / C06) -/
